@@ -113,6 +113,7 @@ func (w *wrapper) NewStream(ctx context.Context, desc *grpc.StreamDesc, method s
 	}
 
 	ctx, clientServerStream, ss, cs := w.startStream(ctx, method)
+	clientServerStream.singleResponse = !matched.ServerStreams
 	go func() {
 		err := matched.Handler(w.srv, ss)
 		clientServerStream.Close(err)
